@@ -37,6 +37,7 @@ func init() {
 			m.RunNilParse(s, "R-NILPARSE")
 			m.RunNilErr(s, "R-NILERR")
 			m.RunIllegalSticky(s, "R-ILLEGAL")
+			m.RunUnterminatedAtEnd(s, "R-ILLEGAL") // an unterminated comment or string is found at the end of the input, not before
 			m.RunEOFToken(s, "R-EOFTOKEN")
 			// the lexer and parser themselves cannot panic: assertions, bounds, nil results
 			r := m.Roots()
